@@ -54,3 +54,12 @@ Theorem C02_no_unallocated_received_value : forall c pl,
     exists i, su_of (pl_slots pl) (remap (p_upR p) t) = Some i.
 Proof. intros c pl H. exact (proj2 (plan_covers c pl H)). Qed.
 Print Assumptions C02_no_unallocated_received_value.
+
+(* ... and it comes from an included provider listed after the receiver that returns exactly that
+   (remapped) type; for every selection Bind accepts. *)
+Theorem C02_source_is_a_later_included_provider : forall te funcs1 funcs,
+  select te funcs1 = Ok funcs ->
+  forall k p t, getp funcs k = Some p -> p_include p = true -> In t (pflow p FRecv) -> t <> te_noT te ->
+    exists d r, k < d /\ getp funcs d = Some r /\ p_include r = true /\ In (remap (p_upR p) t) (pflow r FRet).
+Proof. intros te f1 f H. exact (proj2 (select_sources te f1 f H)). Qed.
+Print Assumptions C02_source_is_a_later_included_provider.
